@@ -71,7 +71,9 @@ S_MORE = [b'abcd', b'0123456789', b'm' * 128, b'ab' * 127, b'y' + b'x' * 253, by
 
 N_QUICK = [('-32769', OVF), ('-32768', -32768), ('-1', -1), ('0', 0), ('1', 1), ('2', 2), ('3', 3), ('4', 4),
            ('254', 254), ('255', 255), ('256', 256), ('32767', 32767), ('32768', OVF),
-           ('.4', 0), ('255.4', 255), ('2#', 2), ('3%', 3)]
+           ('.4', 0), ('255.4', 255), ('2#', 2), ('3%', 3),
+           # halves are rounded away from zero
+           ('.5', 1), ('2.5', 3)]
 N_MORE = [('-.4', 0), ('-2', -2), ('5', 5), ('127', 127), ('128', 128), ('253', 253), ('257', 257),
           ('1E5', OVF), ('-1D20', OVF), ('1.6', 2), ('254.6', 255), ('255.6', 256)]
 
